@@ -153,10 +153,18 @@ def rename_boundary(rng, g, counter):
 
 
 def gen_case(rng, family, renames):
-    if family in ("dag", "gated", "emit"):
+    if family in ("dag", "gated", "emit", "endgates"):
         g = gen.gen_dag(rng, max_nodes=7, emits=0.45 if family == "emit" else 0.0, edge_defaults=0.0)
         if family == "gated" or (family == "emit" and rng.random() < 0.3):
             g = gen.add_gates(rng, g)
+        if family == "endgates":
+            # several gates that may route to END, so that nesting can hide one of them and leave another visible
+            g = gen.add_gates(rng, g, n_gates=rng.randint(2, 3))
+            for n in g["nodes"]:
+                if n["kind"] == "ifelse" and "END" not in (n["when_true"], n["when_false"]):
+                    n["when_false"] = "END"
+                elif n["kind"] == "route" and "END" not in n["targets"]:
+                    n["targets"] = list(n["targets"]) + ["END"]
     else:
         g, _ = gen.gen_program(rng, family)
         if rng.random() < 0.6:
@@ -485,7 +493,7 @@ def emit_case(batch, i, g, ob):
     return N, K, tags, meta
 
 
-FAMILIES = ["dag", "dag", "gated", "gated", "emit", "loop", "loop_sync", "cyc", "twocyc"]
+FAMILIES = ["dag", "dag", "gated", "gated", "endgates", "emit", "loop", "loop_sync", "cyc", "twocyc"]
 
 
 def run(ctx):
@@ -493,7 +501,7 @@ def run(ctx):
     batch = CoqBatch("C20", ["Base", "Viz"], shard=40, detail_limit=100000)
     cases, infos = [], {}
     dist = {"family": {}, "depth": {}, "renamed": 0, "rejected": 0, "states": 0, "mermaid": 0, "interactive": 0}
-    target = ctx.n(70, 1500)
+    target = ctx.n(260, 2500)
     tries = 0
     pending, twins = None, {}
     corpus = load_corpus()
